@@ -773,7 +773,7 @@ impl<'a> Ev<'a> {
                         }
                         if is_vec {
                             let val = if name == "insert" && args.len() == 2 { json!({"k":"tuple","items":args.clone()}) } else { args.last().cloned().unwrap_or(Value::Null) };
-                            let val = if size(&val) > 500 { json!({"k":"big"}) } else { val };
+                            let val = if size(&val) > 6000 { json!({"k":"big"}) } else { val };
                             items.push(json!({"guard":self.guard_json(),"v":val,"how":name,"line":line}));
                             let nv = json!({"k":"vecof","items":items,"ty":ty_of(&inner),"name":var});
                             self.set_existing(&var, nv);
